@@ -1,4 +1,5 @@
 import VaxisModel.Lemmas.InputQuery
+import VaxisModel.Model.InputLoop
 
 /-!
 # C03 — "replies to Vaxis's own queries … update exactly the answer they report": the colour requesters
@@ -9,6 +10,7 @@ the LTS of `Model/InputLoop.lean`; `Driver/C03` composes both and compares with 
 -/
 namespace VaxisModel.Props.C03Query
 open VaxisModel.Model.InputQuery VaxisModel.Model.Color VaxisModel.Lemmas.InputQuery
+open VaxisModel.Model.Input VaxisModel.Model.InputLoop
 
 /-- A group of hexadecimal digits as the terminal may send it for one channel. -/
 def Group (ds : List Nat) : Prop := ds ≠ [] ∧ (∀ d ∈ ds, (hexVal d).isSome = true) ∧ ds.length ≤ 15
@@ -122,6 +124,47 @@ theorem query_color_prologue (c : Color) :
     queryColorPre false c = .inl 0 ∧ queryColorPre true (indexColor 7) = .inr 7 ∧
     queryColorPre true (rgbColor 1 2 3) = .inl (rgbColor 1 2 3) ∧ queryColorPre true 0 = .inl 0 := by
   refine ⟨rfl, by decide, by decide, by decide⟩
+
+/-! ## The hand-off of the reply (LTS) -/
+
+/-- What `handleSequence` does with an OSC 4 reply: offered to `QueryColor` only once the
+capability is known, and the capability is always announced. -/
+theorem osc4_effects (b64 : List Nat → Option (List Nat)) (st : VState) (rest : List Nat) :
+    handle b64 st (.osc (ch '4' :: rest)) =
+      .ok (st, (if st.caps.osc4 then [Effect.sendColor (ch '4' :: rest)] else []) ++ [.postB (.internal .capabilityOsc4)]) := by
+  simp [handle, handleOSC, isPrefix, str, ch, bind, Except.bind, pure, Except.pure]
+
+/-- **The requester receives the answer to its own query** (F203 repaired): once `QueryColor` has
+dropped whatever was parked in `chColor` (the first statement after its prologue,
+`query_requesters_shape`), the terminal's reply is parked there by the goroutine's next step and is
+what the requester's receive returns — whatever unsolicited or repeated replies came before.
+Without the drain (`s.color ≠ []`) the non-blocking hand-off drops the reply and the stale payload
+stays at the head of the channel: the defect. -/
+theorem own_reply_parked (p : Params) (hk : p.kinds.color = .nonblocking) (s : Sys) (hp : s.pend = [])
+    (hc : s.vs.caps.osc4 = true) (rest : List Nat) :
+    ∃ s', run p s [.input (.osc (ch '4' :: rest)), .step] = some s' ∧
+      s'.color = (if s.color = [] then [ch '4' :: rest] else s.color) ∧
+      s'.pend = [.postB (.internal .capabilityOsc4)] := by
+  cases hcol : s.color with
+  | nil =>
+    refine ⟨{ s with pend := [.postB (.internal .capabilityOsc4)], color := [ch '4' :: rest] }, ?_, by simp, rfl⟩
+    simp [run, next, hp, osc4_effects, hc, stepEffect, send1, hcol]
+  | cons a t =>
+    refine ⟨{ s with pend := [.postB (.internal .capabilityOsc4)] }, ?_, by simp [hcol], rfl⟩
+    simp [run, next, hp, osc4_effects, hc, stepEffect, send1, hcol, hk]
+
+/-- Non-vacuity / the F203 schedule: an unsolicited `4;1;rgb:…` reply, then the reply to a query for
+index 5. With the drain the channel holds the second payload; without it still the first. -/
+example :
+    let p : Params := { qcap := 4, kinds := Kinds.ofGen, b64 := fun _ => none }
+    let s0 : Sys := { vs := { caps := { osc4 := true } } }
+    (match run p s0 [.input (.osc (ascii "4;1;rgb:ff/00/00")), .step, .step] with
+     | some s1 =>
+       (match run p { s1 with color := [] } [.input (.osc (ascii "4;5;rgb:00/ff/00")), .step], run p s1 [.input (.osc (ascii "4;5;rgb:00/ff/00")), .step] with
+        | some a, some b => a.color == [ascii "4;5;rgb:00/ff/00"] && b.color == [ascii "4;1;rgb:ff/00/00"] &&
+            colorOfReply (litColor 5) (ascii "4;1;rgb:ff/00/00") == 0
+        | _, _ => false)
+     | none => false) = true := by decide
 
 /-! ## Tie to the source (`Gen/Caps.lean`, regenerated on every run) -/
 
